@@ -21,43 +21,43 @@ import (
 
 // Op13 is one application-side or network-side action in the C13 world.
 type Op13 struct {
-	Kind   string `json:"kind"` // write | inbound | read | deadline | sleep | close | attempts
-	Peer   int    `json:"peer,omitempty"`
-	N      int    `json:"n,omitempty"`     // payload length / count / milliseconds / seconds
-	Burst  int    `json:"burst,omitempty"` // datagrams in an inbound burst
-	Via    string `json:"via,omitempty"`   // inbound: data | chan | unknown-chan
-	Writers int   `json:"writers,omitempty"` // concurrent writers to the same peer
-	Empty   bool  `json:"empty,omitempty"`   // inbound: the peer's datagram is empty (a zero-length payload is a datagram too)
-	Cookie  bool  `json:"cookie,omitempty"`  // inbound: the payload begins with the STUN magic cookie (application data may)
+	Kind    string `json:"kind"` // write | inbound | read | deadline | sleep | close | attempts
+	Peer    int    `json:"peer,omitempty"`
+	N       int    `json:"n,omitempty"`       // payload length / count / milliseconds / seconds
+	Burst   int    `json:"burst,omitempty"`   // datagrams in an inbound burst
+	Via     string `json:"via,omitempty"`     // inbound: data | chan | unknown-chan
+	Writers int    `json:"writers,omitempty"` // concurrent writers to the same peer
+	Empty   bool   `json:"empty,omitempty"`   // inbound: the peer's datagram is empty (a zero-length payload is a datagram too)
+	Cookie  bool   `json:"cookie,omitempty"`  // inbound: the payload begins with the STUN magic cookie (application data may)
 }
 
 // C13Case is the replay format.
 type C13Case struct {
-	TCP       bool     `json:"tcp,omitempty"`       // TCP allocation (ConnectionAttempt part)
-	PermReact []string `json:"perm_reactions"`      // cycled: ok | 400 | 403 | 438 | silence | delay
-	BindReact []string `json:"bind_reactions"`      // cycled
-	Reader    bool     `json:"reader"`              // an application goroutine keeps calling ReadFrom
+	TCP       bool     `json:"tcp,omitempty"`  // TCP allocation (ConnectionAttempt part)
+	PermReact []string `json:"perm_reactions"` // cycled: ok | 400 | 403 | 438 | silence | delay
+	BindReact []string `json:"bind_reactions"` // cycled
+	Reader    bool     `json:"reader"`         // an application goroutine keeps calling ReadFrom
 	Ops       []Op13   `json:"ops"`
 }
 
 type c13Server struct {
-	mu        sync.Mutex
-	sock      *sim.UDPSock
-	client    *net.UDPAddr
-	c         *C13Case
-	permI     int
-	bindI     int
-	nonceN    int
-	permOK    map[string]bool   // peer IP -> a CreatePermission success covering it has been sent
-	bound     map[uint16]string // channel number -> peer (ChannelBind success sent)
-	reqChan   map[uint16]string // channel number -> peer, from every ChannelBind request seen
-	peerChan  map[string]uint16
-	sent      map[string][][]byte // payloads relayed toward each peer (in arrival order)
-	violation string
-	kind      string
-	log       []string
-	relayTCP  bool
-	nonSuccess int
+	mu             sync.Mutex
+	sock           *sim.UDPSock
+	client         *net.UDPAddr
+	c              *C13Case
+	permI          int
+	bindI          int
+	nonceN         int
+	permOK         map[string]bool   // peer IP -> a CreatePermission success covering it has been sent
+	bound          map[uint16]string // channel number -> peer (ChannelBind success sent)
+	reqChan        map[uint16]string // channel number -> peer, from every ChannelBind request seen
+	peerChan       map[string]uint16
+	sent           map[string][][]byte // payloads relayed toward each peer (in arrival order)
+	violation      string
+	kind           string
+	log            []string
+	relayTCP       bool
+	nonSuccess     int
 	dataBeforeBind bool
 	dataAfterBind  bool
 }
@@ -390,7 +390,7 @@ func runC13Inner(c *C13Case) (res c13Result) { //nolint:cyclop,gocyclo,maintidx
 	} else {
 		close(readerDone)
 	}
-	want := map[string][][]byte{}   // what the application handed to WriteTo successfully, per peer
+	want := map[string][][]byte{}    // what the application handed to WriteTo successfully, per peer
 	relayed := map[string][][]byte{} // what the scripted server relayed toward the client, per peer
 	queued := 0
 	seq := 0
